@@ -100,6 +100,8 @@ class Harness:
         self.exe = ctx.harness("zwharness", variant)
         self.budget = budget
         self.secs = secs
+        self.finite = False
+        self.hangs = 0
         rc, out, err = common.run_lines(self.exe, ["D", "V", "K"])
         self.types = out[0]
         self.domorder = out[1]
@@ -133,6 +135,24 @@ class Harness:
                 r[-1].err = "timeout"          # complete record, the harness stopped itself
                 recs += r
                 i += len(r)
+                if self.finite:
+                    # every request of this harness has a finite documented meaning (DWARF / ELF queries over a file): not
+                    # finishing within the limit is a failure in itself; after three of them the check stops
+                    self.hangs += 1
+                    line = lines[i - 1]
+                    parts = line.split(" ")
+                    what = {"query": unhx(parts[2]).decode("latin-1") if len(parts) > 2 else line,
+                            "file": unhx(parts[3]).decode("latin-1") if len(parts) > 3 else None}
+                    try:
+                        import base64, os
+                        if what["file"] and os.path.getsize(what["file"]) < 200000:
+                            what["object_b64"] = base64.b64encode(open(what["file"], "rb").read()).decode()
+                    except OSError:
+                        pass
+                    self.ctx.violation("the implementation does not finish `%s` on %s within %d s" % (what["query"][:120], what["file"], self.secs),
+                                       {"stream": "hang", "input": what, "got": "no end within %d s" % self.secs})
+                    if self.hangs >= 3:
+                        raise common.Abort()
                 # only timeouts in a row count: a sporadic non-terminating program is nothing unusual in a mutated corpus
                 ntimeouts = ntimeouts + 1 if len(r) == 1 else 1
                 if ntimeouts >= 8:
